@@ -238,8 +238,13 @@ static void asl_verif_trace_chunk(void) {
         if (Turn) {
             DreheCodes();
         }
+        /* second form: the buffer as the code generator and the listing see it */
+        fputc(' ', asl_verif_trace);
+        for (z = 0; z < n; z++) {
+            fprintf(asl_verif_trace, "%02x", (unsigned)BAsmCode[z]);
+        }
     } else {
-        fputc('-', asl_verif_trace);
+        fputs("- -", asl_verif_trace);
     }
     fputc('\n', asl_verif_trace);
 }
